@@ -98,7 +98,7 @@ def run(ctx):
             if T.by_stream[s][0].kind == "append":
                 continue
             txt = T.text(s)
-            if not txt.startswith("⟨alloc::borrow::Cow<'_, alloc::string::String>⟩ =>"):
+            if not txt.startswith("⟨str⟩ =>"):
                 continue
             pcs = ctx.pc_strs(f, T.by_stream[s][0].blk)
             shapes[txt] = pcs
@@ -131,7 +131,7 @@ def run(ctx):
             ok = len(wl) == 1 and "self.0.name_in_attr" in ctx.expr(f, wl[0][1]["args"][0])
             ctx.ob("C09.G.struct-arm-located", f.key, "ErrorCheck::with_location(name_in_attr)", ok, "%s" % [ctx.expr(f, t["args"][0])[:120] for _, t in wl])
             nt = [t for t in shapes if "FromMeta :: from_meta ( __nested )" in t]
-            ok = bool(nt) and ". map_err ( | e | e . at ( ⟨alloc::borrow::Cow<'_, alloc::string::String>⟩ ) ) ?" in nt[0]
+            ok = bool(nt) and ". map_err ( | e | e . at ( ⟨str⟩ ) ) ?" in nt[0]
             ctx.ob("C09.H.newtype-arm-located", f.key, "newtype arm adds .at(name)", ok, (nt[0] if nt else "")[:260])
             un = [t for t in shapes if "Meta :: Path ( _ )" in t]
             ok = bool(un) and 'unsupported_format ( "non-path" )' in un[0]
